@@ -89,6 +89,7 @@ class World:
         self.containers = {}
         self.base = None
         self.default_objs = []              # the python objects given as declared defaults (class-level, must never be handed out)
+        self.default_fields = []            # (Field object, tree of its declared default): rebuilt before every history
         if any(c[0] == 'rec' and c[1] != '-' for c in spec):
             ns = {'itch': itch}
             exec(f"class Base(itch.Message, app_name={self.u!r}):\n"
@@ -126,15 +127,17 @@ class World:
                     kw = {}
                     if len(f) > 3:
                         kw['default_value'] = self.value(f[3])
-                        self.default_objs.append(kw['default_value'])
                     fields.append(st.Field(name, st.Array(et, self.int_type(*f[2])), **kw))
+                    if len(f) > 3:
+                        self.default_fields.append((fields[-1], f[3]))
                 else:
                     kw = {}
                     rc = self.build(f[1])
                     if len(f) > 2:
                         kw['default_value'] = self.value(f[2])
-                        self.default_objs.append(kw['default_value'])
                     fields.append(st.Field(name, rc, **kw))
+                    if len(f) > 2:
+                        self.default_fields.append((fields[-1], f[2]))
             if d[1] == '-':
                 cls = type(f'{self.u}_R{c}', (st.Record,), {'Fields': fields})
             else:
@@ -168,6 +171,14 @@ class World:
         self.py[c] = cls
         self.cid[cls] = c
         return cls
+
+    def reset_defaults(self):
+        """every history starts from import-time state of the class-level default objects: the declared defaults are built anew and
+        put into their Field objects (a new world per history - thousands of classes per run - made the thorough tier quadratic)"""
+        self.default_objs = []
+        for field, tree in self.default_fields:
+            field.default_value = self.value(tree)
+            self.default_objs.append(field.default_value)
 
     def fix_field(self, tag, t):
         fix = lib()[3]
@@ -529,7 +540,8 @@ def execute(spec, ops, world=None):
     """run `ops` on fresh instances; returns (results, findings) — findings = oracle failures
     [(op index, kind, description)] where kind is the known-finding kind or 'cross-instance-change' / 'shared-object' / …"""
     reset_globals()
-    w = world if (world is not None and not has_declared_defaults(spec)) else World(spec)
+    w = world or World(spec)
+    w.reset_defaults()
     r = Runner(w)
     pristine = {}
     if has_declared_defaults(spec):
@@ -1034,7 +1046,8 @@ def elem_tree(rng, r, inst, path, obj):
 def gen_history(rng, spec, world, length, allow_default_mutation):
     """generate by executing: returns ops"""
     reset_globals()
-    r = Runner(World(spec) if has_declared_defaults(spec) else world)
+    world.reset_defaults()
+    r = Runner(world)
     ops = []
     max_insts = rng.choice([2, 3, 4, 4, 5])
     for _ in range(length):
